@@ -726,7 +726,7 @@ func coqHistory(calls []*hCall, got []hRes) (string, int) {
 
 func emitHistory(kind string, calls []*hCall, withModel bool) {
 	if !returns(func() { emitHistory1(kind, calls, withModel) }) {
-		c.Violate("Engine.Execute/does-not-return", "a history of calls on one engine: no result after 180 s", map[string]interface{}{"kind": "history/" + kind, "calls": calls})
+		c.Violate("Engine.Execute/does-not-return", "a history of calls on one engine: no result within the limit (180 s for the first run that hangs)", map[string]interface{}{"kind": "history/" + kind, "calls": calls})
 	}
 }
 
